@@ -76,12 +76,12 @@ func layoutClause(out string) (clause, why string) {
 }
 
 type c09Fail struct {
-	Clause string   `json:"clause"`
-	Why    string   `json:"why"`
-	Lines  []string `json:"lines"`
+	Clause string     `json:"clause"`
+	Why    string     `json:"why"`
+	Lines  []string   `json:"lines"`
 	V      fmtVariant `json:"variant"`
-	X      string   `json:"file"`
-	Chain  []string `json:"formatted_1_2_3"`
+	X      string     `json:"file"`
+	Chain  []string   `json:"formatted_1_2_3"`
 }
 
 type c09Out struct {
@@ -181,8 +181,8 @@ func C09(r *core.Run) {
 		defer os.RemoveAll(dir)
 	}
 	type in struct {
-		Dir              string
-		FullLen, MaxLen  int
+		Dir             string
+		FullLen, MaxLen int
 	}
 	spec := in{dir, r.Pick(2, 3), r.Pick(3, 4)}
 	if r.Degraded() || !inproc.ShimAvailable {
